@@ -77,7 +77,9 @@ ASSUMPTIONS = [
     'categorical features are valid indices; prior continuous features may lie '
     'outside the unit cube (trials completed under other bounds) and then the '
     'reference of the not-worse-than-prior oracle is the score of the prior '
-    'clipped into the cube - an out-of-cube point is not a legitimate candidate',
+    'clipped into the cube - an out-of-cube point is not a legitimate candidate '
+    '- or the score of its raw coordinates when that is lower (the optimiser '
+    'ranks priors by the raw score and may then rightly prefer other priors)',
     'count <= max_evaluations: the budget always allows `count` evaluations, so '
     'unfilled (-inf placeholder) slots are accepted only after at least '
     'max_evaluations candidates were scored',
@@ -666,7 +668,7 @@ def gen_priors(env, p, prior_class, nrng, k=0):
   g = env.g
   m = env.n_prior
   if not m:
-    return None, None, None
+    return None, None, None, None
   n, nk = g['ncont'], len(g['cats'])
   c = nrng.uniform(0.0, 1.0, size=(m, n))
   z = np.stack([nrng.integers(0, size, size=m) for size in g['cats']],
@@ -710,8 +712,9 @@ def gen_priors(env, p, prior_class, nrng, k=0):
       continuous=env.sched.pad_features(c),
       categorical=env.sched.pad_features(z))
   # the oracle's reference point is the prior projected into the unit cube: a
-  # point outside the cube is not a legitimate candidate
-  return prior, np.clip(c, 0.0, 1.0), z
+  # point outside the cube is not a legitimate candidate (the raw coordinates
+  # are returned as well: the optimiser ranks the priors by their raw scores)
+  return prior, np.clip(c, 0.0, 1.0), z, c
 
 
 def group_scores(env, p, c, z):
@@ -757,7 +760,7 @@ def rank_key(r):
   return np.where(np.isnan(r), np.inf, -r)
 
 
-def check_result(rep, env, case, p, prior_c, prior_z, res, log):
+def check_result(rep, env, case, p, prior_c, prior_z, res, log, prior_raw=None):
   """All monitors on one optimiser call. Returns dict of facts for the caller."""
   ctx = rep.ctx
   g = env.g
@@ -1058,6 +1061,21 @@ def check_result(rep, env, case, p, prior_c, prior_z, res, log):
     ps, pamb, psamb = group_scores(env, p, pc, pz)
     ps = np.asarray(ps, dtype=np.float64)
     usable = np.isfinite(ps) & ~psamb
+    if prior_raw is not None and not np.array_equal(prior_raw, prior_c):
+      # a prior outside the cube is ranked by the optimiser with the score of
+      # its raw coordinates; when that is below the score of its projection the
+      # optimiser may rightly prefer other priors to it (more priors than pool
+      # slots): the reference is the lower of the two scores
+      pr = prior_raw[:groups * P].reshape(groups, P, n)
+      rs, ramb, rsamb = group_scores(env, p, pr, pz)
+      rs = np.asarray(rs, dtype=np.float64)
+      usable &= np.isfinite(rs) & ~rsamb
+      with np.errstate(invalid='ignore'):
+        lower = rs < ps
+      if (lower & usable).any():
+        ctx.count('outside_prior_raw_score_below_projected_score')
+      ps = np.where(lower, rs, ps)
+      pamb = np.where(lower, ramb, pamb)
     ctx.count(f'prior_checked:{fam}')
     if usable.any():
       ctx.count('prior_checked_with_finite_prior')
@@ -1146,8 +1164,8 @@ def run_case(rep, env, case, repeat_check=False):
   g = env.g
   nrng = np.random.default_rng(case['pseed'])
   p = gen_params(env, case['fn'], nrng)
-  prior, prior_c, prior_z = gen_priors(env, p, case['prior'], nrng,
-                                       case.get('k', 0))
+  prior, prior_c, prior_z, prior_raw = gen_priors(env, p, case['prior'], nrng,
+                                                  case.get('k', 0))
   try:
     res, log = env.run(p, case['seed'], prior)
   except Exception as e:  # pylint: disable=broad-except
@@ -1158,7 +1176,8 @@ def run_case(rep, env, case, repeat_check=False):
     return None
   ctx.case(group_shape(g) + [case['fn'], case['prior']], case['fn'] != 'const')
   ctx.count('optimizer_calls')
-  facts = check_result(rep, env, case, p, prior_c, prior_z, res, log)
+  facts = check_result(rep, env, case, p, prior_c, prior_z, res, log,
+                       prior_raw)
   # classes seen
   total = ((g['max_evals'] - 1) // g['batch'] + 1) * g['batch']
   if g['count'] > g['batch']:
@@ -1283,7 +1302,7 @@ def run_group(rep, gi, g, n_cases):
       case2 = dict(case, seed=case['seed'] + 1)
       nrng = np.random.default_rng(case2['pseed'])
       p = gen_params(env, fn, nrng)
-      prior, _, _ = gen_priors(env, p, prior_class, nrng, j)
+      prior, _, _, _ = gen_priors(env, p, prior_class, nrng, j)
       try:
         res2, _ = env.run(p, case2['seed'], prior)
       except Exception:  # pylint: disable=broad-except
